@@ -1117,20 +1117,12 @@ class DistNormalTrunc(DistContinuous):
                 return self._lo
             else:
                 return self._hi
+        # the cumulative probability used lies within [F(lo), F(hi)], so a
+        # value outside [lo, hi] can only be a rounding error of the inverse
         if d < self._lo:
-            # rounding error?
-            if abs(d - self._lo) < 1E-6 * abs(self._lo):
-                return self._lo
-            else:
-                raise ValueError(f"drawn value {d} outside of interval "\
-                    f"[min, max] = [{self._lo}, {self._hi}]") 
+            return self._lo
         if d > self._hi:
-            # rounding error?
-            if abs(d - self._hi) < 1E-6 * abs(self._hi):
-                return self._hi
-            else:
-                raise ValueError(f"drawn value {d} outside of interval "\
-                    f"[min, max] = [{self._lo}, {self._hi}]") 
+            return self._hi
         return d
     
     def probability_density(self, x: float) -> float:
